@@ -18,14 +18,14 @@ import (
 )
 
 type strmState struct {
-	S, B    []string
-	sums    [][]string        // S at each state.Sum
-	cells   map[ssa.Value]string // content token of local cells (challenge)
-	vals    map[ssa.Value]string // tokens of call results computed on this path (digest)
-	ints    map[ssa.Value]int64  // concrete values of integer phis (loops over a literal list of chunks)
-	ret     string
-	notes   []string
-	undec   string
+	S, B  []string
+	sums  [][]string           // S at each state.Sum
+	cells map[ssa.Value]string // content token of local cells (challenge)
+	vals  map[ssa.Value]string // tokens of call results computed on this path (digest)
+	ints  map[ssa.Value]int64  // concrete values of integer phis (loops over a literal list of chunks)
+	ret   string
+	notes []string
+	undec string
 }
 
 func (s *strmState) clone() *strmState {
@@ -77,7 +77,35 @@ func (c *Ctx) strmTok(v ssa.Value, fr *strmFrame, st *strmState, d int) string {
 		inner := ""
 		if al, isAl := x.X.(*ssa.Alloc); isAl {
 			if sts := storesInto(al); len(sts) == 1 {
-				inner = c.strmTok(sts[0].Val, fr, st, d+1)
+				// the one store must be what the array holds here: it is executed before this use on every path, and
+				// nothing else (a call given a part of the array, an element store) writes the array
+				sole := sts[0].Block() == x.Block() || sts[0].Block().Dominates(x.Block())
+				if sts[0].Block() == x.Block() && !core.Precedes(x.Parent(), sts[0], x) {
+					sole = false
+				}
+				for _, r := range core.Refs(al) {
+					switch y := r.(type) {
+					case *ssa.Store, *ssa.UnOp, *ssa.DebugRef:
+					case *ssa.Slice:
+						// other slices of the array: fine when they are only read as whole messages like this one
+						if y != x {
+							for _, rr := range core.Refs(y) {
+								if call, isCall := rr.(ssa.CallInstruction); isCall {
+									if f := core.Callee(call.Common()); f == nil || !core.InModule(f) {
+										sole = false // handed to something that may fill it (binary.PutUint64, copy, Read…)
+									}
+								}
+							}
+						}
+					default:
+						sole = false
+					}
+				}
+				if sole {
+					inner = c.strmTok(sts[0].Val, fr, st, d+1)
+				} else {
+					inner = "?array-with-several-writers:" + al.Comment
+				}
 			}
 		}
 		if inner == "" {
@@ -412,7 +440,9 @@ func (c *Ctx) strmCheck(name, key, expectDesc string, check func(e *strmState) s
 	return c.Check(len(bad) == 0, "F7", key, fn.Pos(), name+": on some path "+strings.Join(uniqStrings(bad), "; ")+" — expected "+expectDesc, fmt.Sprintf("%d path(s): %s", len(exits), expectDesc))
 }
 
-func streamOf(e *strmState) string { return strings.Join(append(append([]string(nil), e.S...), e.B...), " ") }
+func streamOf(e *strmState) string {
+	return strings.Join(append(append([]string(nil), e.S...), e.B...), " ")
+}
 
 // strmFacts: the stream obligations of F7.
 func (c *Ctx) strmFacts() int {
